@@ -67,8 +67,10 @@ def gen_mech_case(rng, mech=None):
         case["ovr"] = {}
     elif r < 0.45:
         case["ovr"] = {"ttl": rng.choice([t for t in (FIN_TTL_CHOICES if fin else TTL_CHOICES) if t is not None])}
+    if fin and rng.random() < 0.5:
+        case["tpl"] = rng.choice(["exp", "exp", "nbf", "both"])
     if mech in ("introspection", "generic") and rng.random() < 0.4:
-        case["vl"] = rng.choice([1, 5, 30])
+        case["vl"] = rng.choice([1, 5, 30, 1, 5, 30, 1, 5, 30, -3, -30])   # a negative leeway must be refused
     ninst = 1
     if mech in EXPIRING and rng.random() < 0.25:
         # several instances of the mechanism (rule-level overrides of cache_ttl / validity leeway) share the cache
@@ -81,7 +83,7 @@ def gen_mech_case(rng, mech=None):
             if rng.random() < 0.7:
                 inst["ovr"] = {"ttl": rng.choice([t for t in TTL_CHOICES if t is not None])}
             if mech in ("introspection", "generic") and rng.random() < 0.5:
-                inst["vl"] = rng.choice([1, 5, 30])
+                inst["vl"] = rng.choice([1, 5, 30, 1, 5, 30, 1, 5, 30, 1, 5, 30, 1, 5, 30, -30])
             insts.append(inst)
         case["insts"] = insts
     cfg = _effective(case)
@@ -119,18 +121,39 @@ def gen_mech_case(rng, mech=None):
                     step["chain"] = chain
             last[key] = (now, _guess_ttl(mech, cfg, rel), rel)
         else:
+            if fin and case.get("tpl"):
+                # values the claims template tries to put into the token itself (relative to now)
+                t = cfg if cfg is not None else 300
+                step["sexp"] = rng.choice([1, 5, 30, t - 6, t - 1, t + 100, -5])
+                step["snbf"] = rng.choice([0, 0, -10, 50])
             last[key] = (now, _guess_ttl(mech, cfg, None), None)
         steps.append(step)
     case["steps"] = steps
     return case
 
 
+HC_CHOICES = [None, None, {"enabled": True, "dttl": 0}, {"enabled": True, "dttl": 0}, {"enabled": True},
+              {"enabled": True, "dttl": 1800}, {"enabled": True, "dttl": 10}, {"enabled": False, "dttl": 50},
+              {"enabled": True, "dttl": -5}]
+
+
 def gen_http_case(rng):
     store = rng.choices(["virtual", "redis", "memory"], [6, 3, 1])[0]
-    case = {"fam": "c10http", "store": store, "dttl": rng.choice([0, 0, -5, 10, 30, 1800]),
-            # GET only: whether requests with other methods (or a body) reach the response cache at all is a
-            # question of what a cache entry is keyed by (C11); the model covers them, the generator does not
-            "method": "GET"}
+    metadata = rng.random() < 0.2
+    if metadata:
+        # OAuth2 server metadata resolution: http_cache not configured / default_ttl 0s / omitted / positive /
+        # disabled; two or more resolutions in sequence, mostly answered without freshness headers
+        case = {"fam": "c10http", "via": "metadata", "store": store}
+        hc = rng.choice(HC_CHOICES)
+        if hc is not None:
+            case["hc"] = dict(hc)
+        dflt = 1800 if hc is None else (hc.get("dttl", 0) if hc["enabled"] else 0)
+    else:
+        case = {"fam": "c10http", "store": store, "dttl": rng.choice([0, 0, -5, 10, 30, 1800]),
+                "method": rng.choices(["GET", "HEAD", "POST", "PUT"], [14, 3, 2, 1])[0]}
+        if rng.random() < 0.05:
+            case["hc"] = {"enabled": False, "dttl": 30}
+        dflt = case["dttl"]
     steps = []
     last = {}
     now = 0
@@ -146,34 +169,48 @@ def gen_http_case(rng):
                     dt = rng.choice(cands)
         now += dt
         resp = {}
-        ma = rng.choice([None, None, None, 0, 1, 5, 60, -5])
+        bare = metadata and rng.random() < 0.6          # a metadata document without any freshness header
+        ma = None if bare else rng.choice([None, None, None, 0, 1, 5, 60, -5])
         if ma is not None:
             resp["maxage"] = ma
-        if rng.random() < 0.1:
-            resp["smaxage"] = 10
-        for flag, p in (("no-store", 0.08), ("public", 0.1), ("must-revalidate", 0.05), ("private", 0.05)):
-            if rng.random() < p:
-                resp[flag] = True
-        r = rng.random()
-        if r < 0.1:
-            resp["badexpires"] = True
-        elif r < 0.5:
-            resp["expires"] = rng.choice([-5, 0, 1, 20, 60])
-        if rng.random() < 0.5:
-            resp["date"] = rng.choice([0, -5, 5, 20])
-        st = rng.choice([200, 200, 200, 200, 404, 500, 203])
+        if not bare:
+            if rng.random() < 0.1:
+                resp["smaxage"] = 10
+            for flag, p in (("no-store", 0.08), ("public", 0.1), ("must-revalidate", 0.05), ("private", 0.05),
+                            ("no-cache", 0.07), ("vary", 0.07)):
+                if rng.random() < p:
+                    resp[flag] = True
+            r = rng.random()
+            if r < 0.12:
+                resp["badexpires"] = True
+            elif r < 0.5:
+                resp["expires"] = rng.choice([-5, 0, 1, 20, 60])
+            if rng.random() < 0.5:
+                resp["date"] = rng.choice([0, 0, -5, -50, 5, 20])
+            if rng.random() < 0.15:
+                resp["age"] = rng.choice([0, 5, 100])
+        # Last-Modified (static files): a heuristic lifetime must not be derived from it
+        if rng.random() < (0.5 if ma is None else 0.1):
+            resp["lastmod"] = rng.choice([-10, -86400, -864000, -31536000, 50])
+        st = rng.choice([200, 200, 200, 200, 404, 500, 203]) if not metadata else 200
         if st != 200:
             resp["status"] = st
         step = {"dt": dt, "key": key, "resp": resp}
-        if rng.random() < 0.1:
-            step["auth"] = True
-        if rng.random() < 0.05:
-            step["reqnostore"] = True
+        if not metadata:
+            if rng.random() < 0.1:
+                step["auth"] = True
+            if rng.random() < 0.05:
+                step["reqnostore"] = True
+            if rng.random() < 0.05:
+                step["body"] = True
+            if rng.random() < 0.05:
+                step["method"] = rng.choice(["GET", "HEAD", "POST"])
         life = ma if ma is not None and ma >= 0 else None
         if life is None and "expires" in resp:
             life = resp["expires"] - resp.get("date", 0)
         if life is None:
-            life = case["dttl"]
+            life = dflt
+        life -= max(resp.get("age", 0), -resp.get("date", 0), 0)
         last[key] = (now, life)
         steps.append(step)
     case["steps"] = steps
